@@ -63,6 +63,33 @@ Theorem C19_spec : forall c,
   in_domain c = true -> k_malformed c = false -> spec_C19 c (model_impl c) = true.
 Proof. exact spec_C19_holds. Qed.
 
+(** The section is cut out of the manifest text at the first occurrence of the header string;
+    when that occurrence is the section header (the header string does not start anywhere in the
+    prefix [p]), the text handed to the TOML deserializer is the prefix's line feeds followed by the
+    section body: nothing else of the prefix matters — not its line-ending style (CRLF, lone
+    carriage returns), a byte-order mark, its comments or tables, its length. *)
+Theorem C19_section_text : forall p body,
+  header_not_before p (header ++ body) ->
+  section_text (p ++ header ++ body) = Some (only_line_feeds p ++ body).
+Proof. exact section_text_prefix. Qed.
+
+Theorem C19_prefix_irrelevant : forall p p' body,
+  header_not_before p (header ++ body) -> header_not_before p' (header ++ body) ->
+  only_line_feeds p = only_line_feeds p' ->
+  section_text (p ++ header ++ body) = section_text (p' ++ header ++ body).
+Proof. exact section_text_prefix_irrelevant. Qed.
+
+(** in particular rewriting every LF of the prefix as CRLF changes nothing *)
+Theorem C19_crlf_prefix : forall s,
+  only_line_feeds (flat_map (fun c => if c =? line_feed then [13; line_feed] else [c]) s) = only_line_feeds s.
+Proof. exact only_line_feeds_crlf. Qed.
+
+(** non-vacuity: "a\r\n# b\n" ++ header ++ "\nx" and the header mentioned in a comment (cut at the mention) *)
+Example C19_example_text :
+  section_text ([97; 13; 10; 35; 32; 98; 10] ++ header ++ [10; 120]) = Some [10; 10; 10; 120]
+  /\ section_text ([35; 32] ++ header ++ [32; 98; 10] ++ header ++ [10; 120]) = Some ([32; 98; 10] ++ header ++ [10; 120]).
+Proof. vm_compute. split; reflexivity. Qed.
+
 (** the code before the repair: `default = "en"`, `locales = ["it"]`, `inherits = { it = "en" }`
     is a configuration the documentation accepts; it was rejected as `unknown locale "en"` *)
 Theorem C19_old_refuted :
